@@ -591,7 +591,7 @@ func (s sstr) String() string {
 
 func isStr(v value) bool {
 	switch v.(type) {
-	case string, sstr:
+	case string, sstr, lazyStr:
 		return true
 	}
 	return false
@@ -607,6 +607,8 @@ func strBytes(v value) []value {
 		return b
 	case sstr:
 		return s.b
+	case lazyStr:
+		return strBytes(s.force())
 	}
 	panic(fmt.Sprintf("strBytes: %T", v))
 }
@@ -617,6 +619,8 @@ func strLen(v value) int {
 		return len(s)
 	case sstr:
 		return len(s.b)
+	case lazyStr:
+		return len(strBytes(s.force()))
 	}
 	panic(fmt.Sprintf("strLen: %T", v))
 }
@@ -657,6 +661,13 @@ func byteEq(a, b value) value {
 }
 
 func strEq(x, y value) value {
+	if lx, ok := x.(lazyStr); ok {
+		if ly, ok := y.(lazyStr); ok {
+			if r, ok := lazyEq(lx, ly); ok {
+				return r
+			}
+		}
+	}
 	a, b := strBytes(x), strBytes(y)
 	if len(a) != len(b) {
 		return false
